@@ -9,7 +9,8 @@
            add_argument call per parameter, one parameter per call -- whatever types, help texts and defaults are.
    Part 3  one option: _resolve_arg from the type text alone (resolve_arg_plan), the keywords param2argparse_param
            writes for the shapes T / Optional[T] / List[T] over a scalar T (param2argparse_shape), and what
-           parse_out_param reads back from them for either value of the require_default flag (parse_out_kws).
+           parse_out_param reads back from them for either value of the require_default flag (parse_out_kws);
+           Literal['a', 'b', ...] with its choices (param_codec_literal; any number of choices).
    Part 4  the codec (C04_ast_partial_lemma): inside guard_C04_ast the parser returns the description and exactly
            norm_params_C04 of the parameters (the flag threaded through the induction), which is
            same_interface_argparse to argparse_type_norm of the input.
@@ -166,3 +167,847 @@ Proof.
   pose proof (argparse_one_param_per_call _ _ calls st1 st2 _ Ha1 HF) as Hk.
   rewrite Hp1 in Hk. cbn [keys map app] in Hk. apply Hk. exact Hnd.
 Qed.
+
+(* ================================================================== *)
+(* Part 3: one option                                                   *)
+(* ================================================================== *)
+
+Definition req_of_plan (s : rstate) (r0 : bool) : bool :=
+  match (match rs_required s with
+         | None => if existsb (str_eqb (match rs_typ s with Some t' => casefold t' | None => [] end)) required_words
+                   then Some true else None
+         | r => r
+         end) with
+  | None => r0
+  | Some b => b
+  end.
+
+(* _resolve_arg depends on the name only through "ends with kwargs" *)
+Lemma resolve_arg_plan : forall n docf t d r0 s,
+    resolve_plan t = Some s -> endswith (L "kwargs") n = false ->
+    resolve_arg None None n (mkG docf (Has t) d) r0 (Some (L "str"))
+    = Ok (rs_action s, rs_choices s, req_of_plan s r0, rs_typ s, mkG docf (Has t) d).
+Proof.
+  intros n docf t d r0 s Hp Hn. unfold resolve_arg, resolve_plan in *. cbn [g_typ g_doc g_default].
+  destruct (startswith class_prefix t); [discriminate Hp|].
+  destruct (in_simple_types t).
+  - inversion Hp; subst s. reflexivity.
+  - destruct (str_eqb t (L "dict")); [discriminate Hp|]. rewrite Hn. cbn [orb].
+    destruct t as [|c t']; [discriminate Hp|].
+    destruct (parse_ty_fix (c :: t')) as [tree|]; [|discriminate Hp]. inversion Hp; subst s. reflexivity.
+Qed.
+
+Lemma shape_of_typ_inv : forall t sh,
+    shape_of_typ t = Some sh ->
+    exists s, resolve_plan t = Some s
+              /\ rs_typ s = Some (sh_T sh) /\ rs_choices s = None
+              /\ rs_action s = (if sh_append sh then Some (L "append") else None)
+              /\ rs_required s = (if sh_optional sh then Some false else None)
+              /\ scalar4 (sh_T sh) = true /\ sh_append sh && sh_optional sh = false
+              /\ typ_of_shape sh = t.
+Proof.
+  intros t sh H. unfold shape_of_typ in H. destruct (resolve_plan t) as [s|]; [|discriminate H].
+  exists s. split; [reflexivity|].
+  destruct (rs_typ s) as [T|]; [|discriminate H]. destruct (rs_choices s); [discriminate H|].
+  destruct (rs_action s) as [a|] eqn:Ea.
+  - destruct (str_eqb a (L "append")) eqn:Eap; [|discriminate H]. apply str_eqb_eq in Eap. subst a.
+    destruct (rs_required s) as [[|]|] eqn:Er; try discriminate H.
+    + match type of H with (if ?c then _ else _) = _ => destruct c eqn:Ec end; [|discriminate H].
+      inversion H; subst sh. cbn [sh_T sh_append sh_optional] in *.
+      apply andb_true_iff in Ec. destruct Ec as [Ec _]. apply andb_true_iff in Ec. destruct Ec as [_ Ec]. discriminate Ec.
+    + match type of H with (if ?c then _ else _) = _ => destruct c eqn:Ec end; [|discriminate H].
+      inversion H; subst sh. cbn [sh_T sh_append sh_optional] in *.
+      apply andb_true_iff in Ec. destruct Ec as [Ec Et]. apply andb_true_iff in Ec. destruct Ec as [Es _].
+      apply str_eqb_eq in Et. repeat split; try reflexivity; assumption.
+  - destruct (rs_required s) as [[|]|] eqn:Er; try discriminate H.
+    + match type of H with (if ?c then _ else _) = _ => destruct c eqn:Ec end; [|discriminate H].
+      inversion H; subst sh. cbn [sh_T sh_append sh_optional] in *.
+      apply andb_true_iff in Ec. destruct Ec as [Ec Et]. apply andb_true_iff in Ec. destruct Ec as [Es _].
+      apply str_eqb_eq in Et. repeat split; try reflexivity; assumption.
+    + match type of H with (if ?c then _ else _) = _ => destruct c eqn:Ec end; [|discriminate H].
+      inversion H; subst sh. cbn [sh_T sh_append sh_optional] in *.
+      apply andb_true_iff in Ec. destruct Ec as [Ec Et]. apply andb_true_iff in Ec. destruct Ec as [Es _].
+      apply str_eqb_eq in Et. repeat split; try reflexivity; assumption.
+Qed.
+
+Lemma scalar4_cases : forall T, scalar4 T = true -> T = L "str" \/ T = L "int" \/ T = L "float" \/ T = L "bool".
+Proof.
+  intros T H. unfold scalar4 in H.
+  repeat (apply orb_true_iff in H; destruct H as [H|H]); apply str_eqb_eq in H; auto.
+Qed.
+
+(* closed facts about the four scalar names, computed from the live constants *)
+Record scalar_facts (T : str) : Prop := mkSF {
+  sf_simple : in_simple_types T = true;
+  sf_req : existsb (str_eqb (casefold T)) required_words = negb (str_eqb T (L "bool"));
+  sf_keep : contains (L "Optional") T || str_eqb T (L "Any") || str_eqb T (L "pickle.loads") || str_eqb T (L "loads") = false;
+  sf_pickle : str_eqb T (L "pickle.loads") = false;
+  sf_globals : str_eqb T (L "globals().__getitem__") = false;
+  sf_loads : str_eqb T (L "loads") = false;
+  sf_opt_start : startswith (L "Optional") T = false;
+  sf_opt_in : contains (L "Optional") T = false;
+  sf_opt_list : contains (L "Optional") (L "List[" ++ T ++ L "]") = false;
+  sf_zero : exists z, simple_type_zero T = Some z
+}.
+
+Lemma scalar4_facts : forall T, scalar4 T = true -> scalar_facts T.
+Proof.
+  intros T H. destruct (scalar4_cases T H) as [E|[E|[E|E]]]; subst T;
+    (constructor; try (vm_compute; reflexivity); eexists; vm_compute; reflexivity).
+Qed.
+
+(* ---- what param2argparse_param writes ---- *)
+
+Definition typ2_of (sh : shape) : option str :=
+  if str_eqb (sh_T sh) (L "str") && negb (sh_append sh) then None else Some (sh_T sh).
+Definition action_of (sh : shape) : option str := if sh_append sh then Some (L "append") else None.
+Definition required0_of (d : option dval) : bool :=
+  match d with None | Some (DV VNone) => false | Some _ => true end.
+Definition required_of (sh : shape) (d : option dval) : bool :=
+  if sh_optional sh then false else if str_eqb (sh_T sh) (L "bool") then required0_of d else true.
+Definition dflt_of (d : option dval) : option pyval := match d with Some (DV v) => Some v | _ => None end.
+
+Lemma no_announce_nil : no_announce [] = true. Proof. reflexivity. Qed.
+
+Lemma extract_doc_fld : forall docf edd,
+    match docf with Has (c :: r) => no_announce (c :: r) = true | _ => True end ->
+    extract_default_fld (match docf with Missing => Has [] | x => x end) true default_announces None edd
+    = Ok (match docf with Missing => Has [] | x => x end, None).
+Proof.
+  intros docf edd H. destruct docf as [| |[|c r]]; cbn [extract_default_fld].
+  - rewrite (extract_default_no_announce [] true None edd no_announce_nil). reflexivity.
+  - reflexivity.
+  - rewrite (extract_default_no_announce [] true None edd no_announce_nil). reflexivity.
+  - rewrite (extract_default_no_announce (c :: r) true None edd H). reflexivity.
+Qed.
+
+Lemma help_ok_inv : forall docf gt d,
+    help_ok_C04 (mkG docf gt d) = true ->
+    match docf with Has (c :: r) => no_announce (c :: r) = true /\ sv_stable (c :: r) = true | _ => True end.
+Proof.
+  intros docf gt d H. unfold help_ok_C04, prose_of in H. cbn [g_doc] in H.
+  destruct docf as [| |[|c r]]; try exact I. apply andb_true_iff in H. exact H.
+Qed.
+
+Lemma default_ok_C04_inv : forall sh d,
+    default_ok_C04 sh d = true ->
+    match d with
+    | None => sh_append sh = false /\ (sh_optional sh = true \/ str_eqb (sh_T sh) (L "bool") = false)
+    | Some (DV v) =>
+      type_name v = sh_T sh
+      /\ match v with
+         | VStr s => sv_stable s = true /\ code_quoted s = false /\ in_none_types (VStr s) = false
+         | _ => True
+         end
+    | Some _ => False
+    end.
+Proof.
+  intros sh d H. unfold default_ok_C04 in H. destruct d as [[v|ex|o]|]; try discriminate H.
+  - apply andb_true_iff in H. destruct H as [Ht Hv]. apply str_eqb_eq in Ht. split; [exact Ht|].
+    destruct v; try exact I. apply andb_true_iff in Hv. destruct Hv as [Hv H3]. apply andb_true_iff in Hv. destruct Hv as [H1 H2].
+    apply negb_true_iff in H2. apply negb_true_iff in H3. repeat split; assumption.
+  - apply andb_true_iff in H. destruct H as [Ha Ho]. apply negb_true_iff in Ha. split; [exact Ha|].
+    apply orb_true_iff in Ho. destruct Ho as [Ho|Ho]; [left; exact Ho|right; apply negb_true_iff; exact Ho].
+Qed.
+
+Lemma action1_id : forall (a : option str), match a with Some (c :: r) => Some (c :: r) | _ => a end = a.
+Proof. intros [[|c r]|]; reflexivity. Qed.
+
+Definition doc_cond (docf : fld str) : Prop :=
+  match docf with Has (c :: r) => no_announce (c :: r) = true /\ sv_stable (c :: r) = true | _ => True end.
+
+Definition dflt_cond (T : str) (d : option dval) : Prop :=
+  match d with
+  | None => True
+  | Some (DV v) =>
+    type_name v = T
+    /\ match v with
+       | VStr s => sv_stable s = true /\ code_quoted s = false /\ in_none_types (VStr s) = false
+       | _ => True
+       end
+  | Some _ => False
+  end.
+
+Lemma none_types_str_C04 : forall s, in_none_types (VStr s) = false -> str_eqb s NoneStr = false.
+Proof.
+  intros s H. unfold in_none_types, Extracted.none_types_strs in H. cbn [existsb] in H.
+  apply orb_false_iff in H. destruct H as [_ H]. apply orb_false_iff in H. destruct H as [H _]. exact H.
+Qed.
+
+Ltac p2a_fin T app :=
+  rewrite C06Facts.set_value_option; unfold call_stmt, option_arg, kws_of, argparser;
+  cbn [fst snd prose_of g_doc dflt_of andb];
+  destruct (str_eqb T (L "str")), app; cbn [andb negb]; reflexivity.
+
+Ltac p2a_default T app Htn Hv Fsimple Fpickle :=
+  match goal with
+  | |- context [infer_type_and_default _ _ _ (OV ?v) _ _] =>
+    destruct v as [|b|zz|fr|s];
+    [ rewrite <- Htn in Fsimple; vm_compute in Fsimple; discriminate Fsimple
+    | cbn [infer_type_and_default bind it_typ it_action it_default]; rewrite Htn, Fpickle, action1_id; p2a_fin T app
+    | cbn [infer_type_and_default bind it_typ it_action it_default]; rewrite Htn, Fpickle, action1_id; p2a_fin T app
+    | cbn [infer_type_and_default bind it_typ it_action it_default]; rewrite Htn, Fpickle, action1_id; p2a_fin T app
+    | destruct Hv as [Hsv [Hcq Hnn]]; cbn [infer_type_and_default]; rewrite Hcq;
+      cbn [bind it_typ it_action it_default]; cbn [type_name] in Htn; subst T; rewrite Fpickle, action1_id;
+      rewrite (none_types_str_C04 s Hnn); p2a_fin (L "str") app ]
+  end.
+
+Ltac p2a_nodefault T app Fkeep Fpickle :=
+  cbn [bind]; unfold infer_fuel, o_none; cbn [infer_type_and_default]; rewrite Fkeep;
+  cbn [bind it_typ it_action it_default]; rewrite Fpickle, action1_id; p2a_fin T app.
+
+Ltac p2a_cases T app Hd Fsimple Fpickle Fkeep :=
+  match goal with
+  | |- context [g_default {| g_doc := _; g_typ := _; g_default := ?d |}] =>
+    destruct d as [[v|ex|o]|]; try contradiction;
+    [ let Htn := fresh "Htn" in let Hv := fresh "Hv" in
+      destruct Hd as [Htn Hv]; cbn [pyobj_of_dval bind g_default fill_if]; unfold infer_fuel;
+      p2a_default T app Htn Hv Fsimple Fpickle
+    | cbn [g_default fill_if]; p2a_nodefault T app Fkeep Fpickle ]
+  end.
+
+Lemma p2a_core : forall pt edd n docf t d T (app : bool) ch required,
+    scalar_facts T ->
+    resolve_arg None None n (mkG docf (Has t) d) (required0_of d) (Some (L "str"))
+    = Ok ((if app then Some (L "append") else None), ch, required, Some T, mkG docf (Has t) d) ->
+    doc_cond docf -> dflt_cond T d ->
+    param2argparse_param pt false edd n (mkG docf (Has t) d)
+    = Ok (call_stmt (option_arg n,
+                     kws_of (if str_eqb T (L "str") && negb app then None else Some T) ch
+                            (if app then Some (L "append") else None)
+                            (prose_of (mkG docf (Has t) d)) required (dflt_of d))).
+Proof.
+  intros pt edd n docf t d T app ch required [Fsimple Freq Fkeep Fpickle Fglobals Floads Fos Foi Fol [z Fz]] Hres Hdoc Hd.
+  unfold param2argparse_param. cbn [g_typ g_default g_doc]. fold (required0_of d). rewrite Hres. cbn [bind g_doc g_typ g_default].
+  destruct docf as [| |[|c r]].
+  - cbn [g_doc extract_default_fld]. rewrite (extract_default_no_announce [] true None edd no_announce_nil).
+    cbn [bind fst snd]. p2a_cases T app Hd Fsimple Fpickle Fkeep.
+  - cbn [g_doc extract_default_fld]. cbn [bind fst snd]. p2a_cases T app Hd Fsimple Fpickle Fkeep.
+  - cbn [g_doc extract_default_fld]. rewrite (extract_default_no_announce [] true None edd no_announce_nil).
+    cbn [bind fst snd]. p2a_cases T app Hd Fsimple Fpickle Fkeep.
+  - destruct Hdoc as [Hna Hsvh].
+    cbn [g_doc extract_default_fld]. rewrite (extract_default_no_announce (c :: r) true None edd Hna).
+    cbn [bind fst snd]. p2a_cases T app Hd Fsimple Fpickle Fkeep.
+Qed.
+
+Lemma req_of_plan_shape : forall s sh r0,
+    rs_typ s = Some (sh_T sh) -> rs_required s = (if sh_optional sh then Some false else None) ->
+    scalar_facts (sh_T sh) ->
+    req_of_plan s r0 = if sh_optional sh then false else if str_eqb (sh_T sh) (L "bool") then r0 else true.
+Proof.
+  intros s sh r0 HT Hreq F. unfold req_of_plan. rewrite Hreq, HT. destruct (sh_optional sh); [reflexivity|].
+  rewrite (sf_req _ F). destruct (str_eqb (sh_T sh) (L "bool")); reflexivity.
+Qed.
+
+Theorem param2argparse_shape : forall pt edd n docf t d sh,
+    shape_of_typ t = Some sh -> plain_name_C04 n = true ->
+    help_ok_C04 (mkG docf (Has t) d) = true -> default_ok_C04 sh d = true ->
+    param2argparse_param pt false edd n (mkG docf (Has t) d)
+    = Ok (call_stmt (option_arg n,
+                     kws_of (typ2_of sh) None (action_of sh) (prose_of (mkG docf (Has t) d)) (required_of sh d) (dflt_of d))).
+Proof.
+  intros pt edd n docf t d sh Hsh Hn Hhelp Hd.
+  destruct (shape_of_typ_inv t sh Hsh) as [s [Hplan [HT [Hch [Hact [Hreq [Hsc [Hao Htyp]]]]]]]].
+  pose proof (scalar4_facts _ Hsc) as F.
+  unfold plain_name_C04 in Hn. apply negb_true_iff in Hn.
+  pose proof (help_ok_inv _ _ _ Hhelp) as Hdoc.
+  pose proof (default_ok_C04_inv sh d Hd) as Hdd.
+  unfold typ2_of, action_of, required_of. rewrite <- (req_of_plan_shape s sh (required0_of d) HT Hreq F).
+  apply p2a_core; [exact F| |exact Hdoc|].
+  - rewrite (resolve_arg_plan n docf t d _ s Hplan Hn), Hact, Hch, HT. reflexivity.
+  - unfold dflt_cond. destruct d as [[v|ex|o]|]; try exact Hdd; exact I.
+Qed.
+
+(* ---- what parse_out_param reads from such keywords ---- *)
+
+Lemma find_kws : forall ty ch ac h r d,
+    find_kw (L "required") (kws_of ty ch ac h r d) = (if r then Some (set_value (VBool true)) else None)
+    /\ find_kw (L "type") (kws_of ty ch ac h r d)
+       = option_map (fun t => EName (if str_eqb t (L "globals().__getitem__") then L "str" else t)) ty
+    /\ find_kw (L "default") (kws_of ty ch ac h r d) = option_map set_value d
+    /\ find_kw (L "help") (kws_of ty ch ac h r d) = option_map (fun x => set_value (VStr x)) h
+    /\ find_kw (L "action") (kws_of ty ch ac h r d) = option_map (fun a => set_value (VStr a)) ac
+    /\ find_kw (L "choices") (kws_of ty ch ac h r d) = option_map (fun cs => ETuple (map set_value cs)) ch.
+Proof. intros [ty|] [ch|] [ac|] [h|] [|] [d|]; repeat split; reflexivity. Qed.
+
+Definition typ_back (T : str) (app required : bool) : str :=
+  let a := if app then L "List[" ++ T ++ L "]" else T in
+  if required then a else L "Optional[" ++ a ++ L "]".
+
+Definition default_back (z : pyval) (required rd : bool) (dflt : option pyval) : option dval :=
+  match dflt with
+  | Some v => Some (DV v)
+  | None => if required then Some (DV z) else if rd then Some (DV (VStr NoneStr)) else None
+  end.
+
+Lemma sv_stable_set_value : forall s, sv_stable s = true -> set_value (VStr s) = EConst (VStr s).
+Proof.
+  intros s H. unfold sv_stable in H. apply andb_true_iff in H. destruct H as [H1 H2].
+  apply negb_true_iff in H1. apply negb_true_iff in H2. unfold set_value, set_value_str. rewrite H1, H2, andb_false_r. reflexivity.
+Qed.
+
+Lemma sv_stable_str : forall s, sv_stable s = true -> set_value_str s = s.
+Proof.
+  intros s H. pose proof (sv_stable_set_value s H) as E. unfold set_value in E. inversion E as [E1]. rewrite E1. exact E1.
+Qed.
+
+Lemma set_value_nonstr : forall v, match v with VStr _ => False | _ => True end -> set_value v = EConst v.
+Proof. intros [| | | |s] H; try reflexivity. contradiction. Qed.
+
+Lemma typ0_of : forall T app,
+    scalar_facts T ->
+    match option_map (fun t => EName (if str_eqb t (L "globals().__getitem__") then L "str" else t))
+                     (if str_eqb T (L "str") && negb app then None else Some T) with
+    | Some e => handle_value e
+    | None => Ok (L "str")
+    end = Ok T.
+Proof.
+  intros T app F. destruct (str_eqb T (L "str") && negb app) eqn:E.
+  - apply andb_true_iff in E. destruct E as [E _]. apply str_eqb_eq in E. subst T. reflexivity.
+  - cbn [option_map handle_value]. rewrite (sf_globals _ F), (sf_loads _ F). reflexivity.
+Qed.
+
+Lemma parse_out_kws : forall n T app help required dflt rd z,
+    scalar_facts T -> simple_type_zero T = Some z ->
+    match help with Some h => no_announce h = true /\ sv_stable h = true | None => True end ->
+    match dflt with
+    | Some v => v <> VNone /\ match v with VStr s => sv_stable s = true | _ => True end
+    | None => True
+    end ->
+    parse_out_param (option_arg n)
+                    (kws_of (if str_eqb T (L "str") && negb app then None else Some T) None
+                            (if app then Some (L "append") else None) help required dflt) rd false
+    = Ok (n, mkG (match help with Some h => Has h | None => FNone end) (Has (typ_back T app required))
+                 (default_back z required rd dflt)).
+Proof.
+  intros n T app help required dflt rd z F Hz Hhelp Hdflt.
+  destruct (find_kws (if str_eqb T (L "str") && negb app then None else Some T) None
+                     (if app then Some (L "append") else None) help required dflt)
+    as [K1 [K2 [K3 [K4 [K5 K6]]]]].
+  unfold parse_out_param. rewrite K1, K2, K3, K4, K5, K6. rewrite (typ0_of T app F).
+  assert (Hreq : match (if required then Some (set_value (VBool true)) else None) with
+                 | Some e => get_value_expr e
+                 | None => Ok (GV (VBool false))
+                 end = Ok (GV (VBool required))).
+  { destruct required; reflexivity. }
+  rewrite Hreq. cbn [bind option_arg get_value_expr none_to_NoneStr].
+  change (skipn 2 (L "--" ++ n)) with n.
+  destruct F as [Fsimple Freq Fkeep Fpickle Fglobals Floads Fos Foi Fol _].
+  assert (Hact : match option_map (fun a : str => set_value (VStr a)) (if app then Some (L "append") else None) with
+                 | Some e => do g <- get_value_expr e; Ok (Some g)
+                 | None => Ok None
+                 end = Ok (if app then Some (GV (VStr (L "append"))) else None)).
+  { destruct app; reflexivity. }
+  rewrite Hact. clear Hact.
+  assert (Hd0 : match option_map set_value dflt with
+                | Some e => do g <- get_value_expr e; Ok (Some g)
+                | None => Ok None
+                end = Ok (option_map GV dflt)).
+  { destruct dflt as [v|]; [|reflexivity]. destruct Hdflt as [Hvn Hvs]. cbn [option_map].
+    destruct v as [|b|zz|fr|s]; try reflexivity; [contradiction|].
+    rewrite (sv_stable_set_value s Hvs). reflexivity. }
+  rewrite Hd0. clear Hd0.
+  assert (Hh0 : match option_map (fun x : str => set_value (VStr x)) help with
+                | Some e => do g <- get_value_expr e; Ok (Some g)
+                | None => Ok None
+                end = Ok (option_map (fun h => GV (VStr h)) help)).
+  { destruct help as [h|]; [|reflexivity]. destruct Hhelp as [_ Hsvh]. cbn [option_map].
+    rewrite (sv_stable_set_value h Hsvh). reflexivity. }
+  rewrite Hh0. clear Hh0. cbn [bind negb].
+  destruct help as [h|]; [destruct Hhelp as [Hna _]|]; destruct dflt as [v|]; cbn [option_map bind dval_of_gval];
+    try rewrite (extract_default_no_announce h true None false Hna); cbn [bind fst snd option_map truthy_gval truthy];
+      rewrite ?Fsimple, ?Hz, ?Fos, ?orb_false_r; unfold typ_back, default_back;
+        destruct app, required; cbn [bind negb andb]; change (str_eqb (L "append") (L "append")) with true; cbv iota;
+          rewrite ?Foi, ?Fol; cbn [negb andb]; try reflexivity; destruct rd; reflexivity.
+Qed.
+
+(* ================================================================== *)
+(* Part 4: the codec                                                    *)
+(* ================================================================== *)
+
+Lemma gparam_ok_C04_inv : forall docf gt d,
+    gparam_ok_C04 (mkG docf gt d) = true ->
+    exists t, gt = Has t /\ help_ok_C04 (mkG docf gt d) = true
+              /\ ((exists sh, shape_of_typ t = Some sh /\ default_ok_C04 sh d = true)
+                  \/ (shape_of_typ t = None /\ exists cs, literal_of_typ t = Some cs /\ str_default_ok_C04 d = true)).
+Proof.
+  intros docf gt d H. unfold gparam_ok_C04 in H. cbn [g_typ g_default] in H.
+  destruct gt as [| |t]; try discriminate H. exists t. split; [reflexivity|].
+  destruct (shape_of_typ t) as [sh|] eqn:Es.
+  - apply andb_true_iff in H. destruct H as [H1 H2]. split; [exact H1|]. left. exists sh. split; [reflexivity|exact H2].
+  - destruct (literal_of_typ t) as [cs|] eqn:El; [|discriminate H].
+    apply andb_true_iff in H. destruct H as [H1 H2]. split; [exact H1|]. right. split; [reflexivity|].
+    exists cs. split; [reflexivity|exact H2].
+Qed.
+
+Lemma scalar_not_nonetype : forall T, scalar4 T = true -> T <> type_name VNone.
+Proof. intros T H E. subst T. vm_compute in H. discriminate H. Qed.
+
+Lemma typ_back_shape : forall t sh d,
+    shape_of_typ t = Some sh -> default_ok_C04 sh d = true ->
+    typ_back (sh_T sh) (sh_append sh) (required_of sh d) = t.
+Proof.
+  intros t sh d Hsh Hd. destruct (shape_of_typ_inv t sh Hsh) as [s [_ [_ [_ [_ [_ [Hsc [Hao Htyp]]]]]]]].
+  pose proof (default_ok_C04_inv sh d Hd) as Hdd.
+  unfold typ_back, required_of. rewrite <- Htyp. unfold typ_of_shape.
+  destruct (sh_optional sh) eqn:Eo.
+  - rewrite andb_true_r in Hao. rewrite Hao. reflexivity.
+  - assert (Hr : (if str_eqb (sh_T sh) (L "bool") then required0_of d else true) = true).
+    { destruct (str_eqb (sh_T sh) (L "bool")) eqn:Eb; [|reflexivity].
+      destruct d as [[v|ex|o]|]; try contradiction.
+      - destruct Hdd as [Htn _]. destruct v; try reflexivity. exfalso. apply (scalar_not_nonetype _ Hsc). symmetry. exact Htn.
+      - destruct Hdd as [_ [Ho|Hb]]; [congruence|]. congruence. }
+    rewrite Hr. reflexivity.
+Qed.
+
+(* T, Optional[T], List[T] *)
+Lemma param_codec_shape : forall pt edd n docf t d sh rd,
+    plain_name_C04 n = true -> shape_of_typ t = Some sh ->
+    help_ok_C04 (mkG docf (Has t) d) = true -> default_ok_C04 sh d = true ->
+    exists c, param2argparse_param pt false edd n (mkG docf (Has t) d) = Ok (call_stmt c)
+              /\ parse_out_param (fst c) (snd c) rd false = Ok (n, norm_param_C04 rd (mkG docf (Has t) d)).
+Proof.
+  intros pt edd n docf t d sh rd Hn Hsh Hhelp Hd.
+  destruct (shape_of_typ_inv t sh Hsh) as [s [_ [_ [_ [_ [_ [Hsc [Hao Htyp]]]]]]]].
+  pose proof (scalar4_facts _ Hsc) as F. destruct (sf_zero _ F) as [z Hz].
+  pose proof (help_ok_inv _ _ _ Hhelp) as Hdoc.
+  pose proof (default_ok_C04_inv sh d Hd) as Hdd.
+  eexists. split; [apply (param2argparse_shape pt edd n docf t d sh Hsh Hn Hhelp Hd)|].
+  cbn [fst snd]. unfold typ2_of, action_of.
+  rewrite (parse_out_kws n (sh_T sh) (sh_append sh) _ (required_of sh d) (dflt_of d) rd z F Hz).
+  - rewrite (typ_back_shape t sh d Hsh Hd). unfold norm_param_C04. cbn [g_typ g_default]. rewrite Hsh.
+    unfold help_fld. f_equal. f_equal. f_equal.
+    unfold default_back, dflt_of, required_of, zero_dval. rewrite Hz.
+    destruct d as [[v|ex|o]|]; try contradiction; [reflexivity|].
+    destruct Hdd as [_ Hob]. destruct (sh_optional sh) eqn:Eo; [reflexivity|].
+    destruct Hob as [Ho|Hb]; [discriminate Ho|]. rewrite Hb. reflexivity.
+  - unfold prose_of. cbn [g_doc]. destruct docf as [| |[|c r]]; try exact I. exact Hdoc.
+  - unfold dflt_of. destruct d as [[v|ex|o]|]; try exact I. destruct Hdd as [Htn Hv]. split.
+    + intros E. subst v. apply (scalar_not_nonetype _ Hsc). symmetry. exact Htn.
+    + destruct v; try exact I. destruct Hv as [Hsv _]. exact Hsv.
+Qed.
+
+(* ---- Literal['a', 'b', ...]: choices ---- *)
+
+Lemma all_strs_map : forall vs cs, all_strs vs = Some cs -> vs = map VStr cs.
+Proof.
+  induction vs as [|v vs IH]; intros cs H; cbn [all_strs] in H.
+  - inversion H; reflexivity.
+  - destruct v as [| | | |x]; try discriminate H. destruct (all_strs vs) as [cs'|]; [|discriminate H].
+    cbn [option_map] in H. inversion H; subst cs. cbn [map]. f_equal. apply IH. reflexivity.
+Qed.
+
+Lemma literal_of_typ_inv : forall t cs,
+    literal_of_typ t = Some cs ->
+    exists s, resolve_plan t = Some s
+              /\ rs_typ s = Some (L "str") /\ rs_choices s = Some (map VStr cs)
+              /\ rs_action s = None /\ rs_required s = None
+              /\ forallb sv_stable cs = true /\ literal_text cs = t.
+Proof.
+  intros t cs H. unfold literal_of_typ in H. destruct (resolve_plan t) as [s|]; [|discriminate H].
+  exists s. split; [reflexivity|].
+  destruct (rs_typ s) as [T|]; [|discriminate H]. destruct (rs_choices s) as [vs|]; [|discriminate H].
+  destruct (rs_action s); [discriminate H|]. destruct (rs_required s); [discriminate H|].
+  destruct (all_strs vs) as [cs'|] eqn:Ea; [|discriminate H].
+  match type of H with (if ?c then _ else _) = _ => destruct c eqn:Ec end; [|discriminate H].
+  inversion H; subst cs'.
+  apply andb_true_iff in Ec. destruct Ec as [Ec Et]. apply andb_true_iff in Ec. destruct Ec as [Ec Es].
+  apply andb_true_iff in Ec. destruct Ec as [ET _]. apply str_eqb_eq in ET. apply str_eqb_eq in Et. subst T.
+  rewrite (all_strs_map vs cs Ea). repeat split; try reflexivity; assumption.
+Qed.
+
+Lemma pa_mapM_choice_values : forall cs,
+    forallb sv_stable cs = true ->
+    pa_mapM get_value_expr (map set_value (map VStr cs)) = Ok (map (fun c => GV (VStr c)) cs).
+Proof.
+  induction cs as [|c cs IH]; intros H; [reflexivity|]. cbn [forallb] in H. apply andb_true_iff in H. destruct H as [Hc Hcs].
+  cbn [map pa_mapM]. rewrite (sv_stable_set_value c Hc). cbn [get_value_expr none_to_NoneStr bind]. rewrite (IH Hcs). reflexivity.
+Qed.
+
+Lemma pa_mapM_choice_texts : forall cs,
+    pa_mapM (fun g => match g with
+                      | GV v => Ok (sq :: py_str v ++ [sq])
+                      | GN _ => Err Unmodelled
+                      end) (map (fun c => GV (VStr c)) cs)
+    = Ok (map (fun c => sq :: c ++ [sq]) cs).
+Proof.
+  induction cs as [|c cs IH]; [reflexivity|]. cbn [map pa_mapM py_str bind]. rewrite IH. reflexivity.
+Qed.
+
+Lemma handle_keyword_choices : forall cs,
+    forallb sv_stable cs = true ->
+    handle_keyword (ETuple (map set_value (map VStr cs))) (L "str") = Ok (literal_text cs).
+Proof.
+  intros cs H. unfold handle_keyword. cbn [bind]. rewrite (pa_mapM_choice_values cs H). cbn [bind].
+  change (in_simple_types (L "str")) with true. change (str_eqb (L "str") (L "str")) with true. cbv iota.
+  rewrite pa_mapM_choice_texts. reflexivity.
+Qed.
+
+Lemma str_default_ok_C04_inv : forall d,
+    str_default_ok_C04 d = true ->
+    exists s0, d = Some (DV (VStr s0)) /\ sv_stable s0 = true /\ code_quoted s0 = false /\ in_none_types (VStr s0) = false.
+Proof.
+  intros d H. unfold str_default_ok_C04 in H. destruct d as [[v|ex|o]|]; try discriminate H.
+  destruct v as [| | | |s0]; try discriminate H. exists s0.
+  apply andb_true_iff in H. destruct H as [H H3]. apply andb_true_iff in H. destruct H as [H1 H2].
+  apply negb_true_iff in H2. apply negb_true_iff in H3. repeat split; assumption.
+Qed.
+
+Lemma scalar_facts_str : scalar_facts (L "str").
+Proof. apply scalar4_facts. reflexivity. Qed.
+
+Lemma parse_out_kws_literal : forall n cs help s0 rd,
+    forallb sv_stable cs = true ->
+    match help with Some h => no_announce h = true /\ sv_stable h = true | None => True end ->
+    sv_stable s0 = true ->
+    parse_out_param (option_arg n) (kws_of None (Some (map VStr cs)) None help true (Some (VStr s0))) rd false
+    = Ok (n, mkG (match help with Some h => Has h | None => FNone end) (Has (literal_text cs)) (Some (DV (VStr s0)))).
+Proof.
+  intros n cs help s0 rd Hcs Hhelp Hs0.
+  destruct (find_kws None (Some (map VStr cs)) None help true (Some (VStr s0))) as [K1 [K2 [K3 [K4 [K5 K6]]]]].
+  unfold parse_out_param. rewrite K1, K2, K3, K4, K5, K6.
+  cbn [option_map bind option_arg get_value_expr none_to_NoneStr set_value].
+  change (skipn 2 (L "--" ++ n)) with n.
+  rewrite (sv_stable_str s0 Hs0). cbn [get_value_expr none_to_NoneStr bind negb].
+  rewrite (handle_keyword_choices cs Hcs).
+  destruct help as [h|].
+  - destruct Hhelp as [_ Hsvh]. cbn [option_map]. rewrite (sv_stable_set_value h Hsvh).
+    cbn [get_value_expr none_to_NoneStr bind dval_of_gval truthy_gval truthy negb andb]. reflexivity.
+  - cbn [option_map bind dval_of_gval truthy_gval truthy negb andb]. reflexivity.
+Qed.
+
+Lemma param_codec_literal : forall pt edd n docf t d cs rd,
+    plain_name_C04 n = true -> shape_of_typ t = None -> literal_of_typ t = Some cs ->
+    help_ok_C04 (mkG docf (Has t) d) = true -> str_default_ok_C04 d = true ->
+    exists c, param2argparse_param pt false edd n (mkG docf (Has t) d) = Ok (call_stmt c)
+              /\ parse_out_param (fst c) (snd c) rd false = Ok (n, norm_param_C04 rd (mkG docf (Has t) d)).
+Proof.
+  intros pt edd n docf t d cs rd Hn Hsh Hlit Hhelp Hd.
+  destruct (literal_of_typ_inv t cs Hlit) as [s [Hplan [HT [Hch [Hact [Hreq [Hcs Htext]]]]]]].
+  destruct (str_default_ok_C04_inv d Hd) as [s0 [Ed [Hs0 [Hcq Hnn]]]]. subst d.
+  unfold plain_name_C04 in Hn. apply negb_true_iff in Hn.
+  pose proof (help_ok_inv _ _ _ Hhelp) as Hdoc.
+  assert (Hemit : param2argparse_param pt false edd n (mkG docf (Has t) (Some (DV (VStr s0))))
+                  = Ok (call_stmt (option_arg n,
+                                   kws_of None (Some (map VStr cs)) None
+                                          (prose_of (mkG docf (Has t) (Some (DV (VStr s0))))) true (Some (VStr s0))))).
+  { apply (p2a_core pt edd n docf t (Some (DV (VStr s0))) (L "str") false (Some (map VStr cs)) true scalar_facts_str).
+    - rewrite (resolve_arg_plan n docf t _ _ s Hplan Hn), Hact, Hch, HT. unfold req_of_plan. rewrite Hreq, HT. reflexivity.
+    - exact Hdoc.
+    - split; [reflexivity|]. repeat split; assumption. }
+  eexists. split; [exact Hemit|]. cbn [fst snd].
+  rewrite (parse_out_kws_literal n cs _ s0 rd Hcs).
+  - rewrite Htext. unfold norm_param_C04. cbn [g_typ g_default]. rewrite Hsh. reflexivity.
+  - unfold prose_of. cbn [g_doc]. destruct docf as [| |[|c r]]; try exact I. exact Hdoc.
+  - exact Hs0.
+Qed.
+
+(* one option: emitted and read back, for either value of the require_default flag *)
+Theorem param_codec_C04 : forall pt edd n g rd,
+    param_ok_C04 (n, g) = true ->
+    exists c, param2argparse_param pt false edd n g = Ok (call_stmt c)
+              /\ parse_out_param (fst c) (snd c) rd false = Ok (n, norm_param_C04 rd g).
+Proof.
+  intros pt edd n [docf gt d] rd H. unfold param_ok_C04 in H. cbn [fst snd] in H.
+  apply andb_true_iff in H. destruct H as [Hn Hg].
+  destruct (gparam_ok_C04_inv docf gt d Hg) as [t [Egt [Hhelp [[sh [Hsh Hd]]|[Hsh [cs [Hlit Hd]]]]]]]; subst gt.
+  - apply (param_codec_shape pt edd n docf t d sh rd Hn Hsh Hhelp Hd).
+  - apply (param_codec_literal pt edd n docf t d cs rd Hn Hsh Hlit Hhelp Hd).
+Qed.
+
+Definition has_default (g : gparam) : bool := match g_default g with Some _ => true | None => false end.
+
+Fixpoint rd_after (rd : bool) (ps : list (str * gparam)) : bool :=
+  match ps with
+  | [] => rd
+  | (n, g) :: r => rd_after (rd || has_default (norm_param_C04 rd g)) r
+  end.
+
+Lemma ap_update_fresh : forall acc n p, ~ In n (keys acc) -> ap_update acc n p = acc ++ [(n, p)].
+Proof.
+  intros acc n p Hn. unfold ap_update.
+  assert (Hg : od_get n acc = None) by (apply od_get_None_iff; exact Hn).
+  rewrite Hg. apply od_set_keys_notin. exact Hn.
+Qed.
+
+Lemma argparse_step_call_eq : forall di fb st c n p,
+    parse_out_param (fst c) (snd c) (ap_require_default st) false = Ok (n, p) ->
+    argparse_step di fb st (call_stmt c)
+    = Ok (mkAP (ap_update (ap_params st) n p) (ap_doc st) (ap_returns st)
+               (ap_require_default st || match g_default p with Some _ => true | None => false end)).
+Proof.
+  intros di fb st c n p H. unfold argparse_step, call_stmt. cbn [argparse_stmt_declined].
+  change (str_eqb (L "add_argument") (L "add_argument") && str_eqb (L "argument_parser") (L "argument_parser")) with true.
+  cbv iota. rewrite H. reflexivity.
+Qed.
+
+(* all the options: the loop appends the closed form, threading the flag *)
+Theorem argparse_loop_codec : forall pt edd di fb l acc doc ret rd,
+    forallb param_ok_C04 l = true -> NoDup (keys acc ++ map fst l) ->
+    exists calls,
+      map_outcome (fun kv => param2argparse_param pt false edd (fst kv) (snd kv)) l = Ok (map call_stmt calls)
+      /\ forall rest,
+        argparse_loop di fb (mkAP acc doc ret rd) (map call_stmt calls ++ rest)
+        = argparse_loop di fb (mkAP (acc ++ norm_params_C04 rd l) doc ret (rd_after rd l)) rest.
+Proof.
+  intros pt edd di fb l. induction l as [|[n g] l IH]; intros acc doc ret rd Hok Hnd.
+  - exists []. split; [reflexivity|]. intros rest. cbn [map app norm_params_C04 rd_after]. rewrite app_nil_r. reflexivity.
+  - cbn [forallb] in Hok. apply andb_true_iff in Hok. destruct Hok as [Hg Hl].
+    destruct (param_codec_C04 pt edd n g rd Hg) as [c [Hemit Hparse]].
+    assert (Hfresh : ~ In n (keys acc)).
+    { intros Hin. cbn [map fst] in Hnd. apply NoDup_remove_2 in Hnd. apply Hnd. apply in_or_app. left. exact Hin. }
+    destruct (IH (acc ++ [(n, norm_param_C04 rd g)]) doc ret (rd || has_default (norm_param_C04 rd g)) Hl) as [calls [Hcalls Hloop]].
+    { unfold keys in *. rewrite map_app. cbn [map fst]. rewrite <- app_assoc. exact Hnd. }
+    exists (c :: calls). split.
+    + cbn [map_outcome fst snd]. rewrite Hemit. cbn [bind]. rewrite Hcalls. reflexivity.
+    + intros rest. cbn [map List.app argparse_loop].
+      rewrite (argparse_step_call_eq di fb (mkAP acc doc ret rd) c n _ Hparse). cbn [bind ap_params ap_doc ap_returns ap_require_default].
+      rewrite (ap_update_fresh acc n _ Hfresh). fold (has_default (norm_param_C04 rd g)).
+      rewrite Hloop. cbn [norm_params_C04 rd_after]. fold (has_default (norm_param_C04 rd g)).
+      rewrite <- app_assoc. reflexivity.
+Qed.
+
+(* ---- the comparison ---- *)
+
+Lemma shape_expressible : forall n t sh, shape_of_typ t = Some sh -> argparse_expressible n t = true.
+Proof.
+  intros n t sh H. destruct (shape_of_typ_inv t sh H) as [s [_ [_ [_ [_ [_ [Hsc [Hao Htyp]]]]]]]].
+  subst t. destruct sh as [T a o]. cbn [sh_T sh_append sh_optional] in *. unfold typ_of_shape. cbn [sh_T sh_append sh_optional].
+  destruct (scalar4_cases T Hsc) as [E|[E|[E|E]]]; subst T; destruct a, o; try discriminate Hao; reflexivity.
+Qed.
+
+Lemma opt_str_eqb_refl_C04 : forall o, C02Spec.opt_str_eqb o o = true.
+Proof. intros [s|]; [apply str_eqb_refl|reflexivity]. Qed.
+
+Lemma same_param_norm_C04 : forall rd g,
+    gparam_ok_C04 g = true -> same_param g (norm_param_C04 rd g) = true.
+Proof.
+  intros rd [docf gt d] Hg.
+  destruct (gparam_ok_C04_inv docf gt d Hg) as [t [Egt [Hhelp [[sh [Hsh Hd]]|[Hsh [cs [Hlit Hd]]]]]]]; subst gt.
+  - destruct (shape_of_typ_inv t sh Hsh) as [s [_ [_ [_ [_ [_ [Hsc [Hao Htyp]]]]]]]].
+    pose proof (scalar4_facts _ Hsc) as F. destruct (sf_zero _ F) as [z Hz].
+    pose proof (default_ok_C04_inv sh d Hd) as Hdd.
+    unfold norm_param_C04. cbn [g_typ g_default]. rewrite Hsh. unfold same_param.
+    apply andb_true_iff. split; [apply andb_true_iff; split|].
+    + unfold same_typ. cbn [g_typ fget]. apply str_eqb_refl.
+    + unfold same_prose, help_fld, prose_of. cbn [g_doc]. destruct docf as [| |[|c r]]; cbn [C02Spec.opt_str_eqb]; try reflexivity.
+      apply str_eqb_refl.
+    + unfold default_ok. cbn [g_default g_typ fget].
+      destruct d as [[v|ex|o]|]; try contradiction.
+      * unfold same_default. cbn [dval_eqb]. rewrite EmitAstFacts.pyval_eqb_refl. apply orb_true_r.
+      * destruct Hdd as [Hap Hob]. destruct (sh_optional sh) eqn:Eo.
+        -- destruct rd; reflexivity.
+        -- (* not optional, not append: the type text is the scalar itself *)
+           assert (Et : t = sh_T sh).
+           { rewrite <- Htyp. unfold typ_of_shape. rewrite Hap, Eo. reflexivity. }
+           unfold zero_of_typ, zero_dval. rewrite Et, Hz. cbn [option_map dval_eqb].
+           rewrite EmitAstFacts.pyval_eqb_refl. apply orb_true_r.
+  - destruct (str_default_ok_C04_inv d Hd) as [s0 [Ed _]]. subst d.
+    unfold norm_param_C04. cbn [g_typ g_default]. rewrite Hsh. unfold same_param.
+    apply andb_true_iff. split; [apply andb_true_iff; split|].
+    + unfold same_typ. cbn [g_typ fget]. apply str_eqb_refl.
+    + unfold same_prose, help_fld, prose_of. cbn [g_doc]. destruct docf as [| |[|c r]]; cbn [C02Spec.opt_str_eqb]; try reflexivity.
+      apply str_eqb_refl.
+    + unfold default_ok. cbn [g_default]. unfold same_default. cbn [dval_eqb pyval_eqb]. rewrite str_eqb_refl. apply orb_true_r.
+Qed.
+
+Lemma same_params_norm_C04 : forall l rd,
+    forallb param_ok_C04 l = true ->
+    forallb (fun kv => match fget (g_typ (snd kv)) with
+                       | Some t => argparse_expressible (fst kv) t
+                       | None => true
+                       end) l = true ->
+    same_params same_param (map (fun kv => (fst kv, argparse_type_norm_param (fst kv) (snd kv))) l) (norm_params_C04 rd l) = true.
+Proof.
+  induction l as [|[n g] l IH]; intros rd H He; [reflexivity|].
+  cbn [forallb] in H, He. apply andb_true_iff in H. destruct H as [Hg Hl]. apply andb_true_iff in He. destruct He as [Heg Hel].
+  unfold param_ok_C04 in Hg. cbn [fst snd] in Hg, Heg. apply andb_true_iff in Hg. destruct Hg as [_ Hg].
+  cbn [map norm_params_C04 same_params fst snd]. rewrite str_eqb_refl. cbn [andb].
+  assert (Hn : argparse_type_norm_param n g = g).
+  { unfold argparse_type_norm_param. destruct (g_typ g) as [| |t]; try reflexivity. cbn [fget] in Heg. rewrite Heg. reflexivity. }
+  rewrite Hn, (same_param_norm_C04 rd g Hg). cbn [andb]. apply IH; assumption.
+Qed.
+
+Lemma guard_C04_ast_inv : forall i,
+    guard_C04_ast i = true ->
+    NoDup (map fst (ir_params i)) /\ forallb param_ok_C04 (ir_params i) = true /\ return_with_default i = None
+    /\ no_carried_body_C04 i = true /\ (exists d, ir_doc i = Has d /\ sv_stable d = true)
+    /\ forallb (fun kv => match fget (g_typ (snd kv)) with
+                          | Some t => argparse_expressible (fst kv) t
+                          | None => true
+                          end) (ir_params i) = true.
+Proof.
+  intros i H. unfold guard_C04_ast in H.
+  apply andb_true_iff in H. destruct H as [H Hdoc]. apply andb_true_iff in H. destruct H as [H Hbody].
+  apply andb_true_iff in H. destruct H as [H Hret]. apply andb_true_iff in H. destruct H as [Hdom Hp].
+  unfold C04_domain in Hdom. apply andb_true_iff in Hdom. destruct Hdom as [Hd2 Hexp].
+  unfold C02_domain in Hd2. apply andb_true_iff in Hd2. destruct Hd2 as [Hn _].
+  split; [apply names_distinct_NoDup; exact Hn|]. split; [exact Hp|]. split; [|split; [exact Hbody|split; [|exact Hexp]]].
+  - unfold return_ok_C04 in Hret. destruct (return_with_default i); [discriminate Hret|reflexivity].
+  - unfold doc_ok_C04 in Hdoc. destruct (ir_doc i) as [| |d]; try discriminate Hdoc. exists d. split; [reflexivity|exact Hdoc].
+Qed.
+
+Lemma argparse_return_plain : forall pt i, return_with_default i = None -> argparse_return pt i = Ok (SReturn (Some argparser)).
+Proof.
+  intros pt i H. unfold argparse_return, returns_param. unfold return_with_default in H.
+  destruct (ir_returns i) as [| |r]; cbn [fget]; try reflexivity.
+  destruct (g_default r); [discriminate H|reflexivity].
+Qed.
+
+(* inside guard_C04_ast (word_wrap and wrap_description off, a function name and type given): the emitter succeeds,
+   the parser succeeds on what it emitted; the description comes back, the parameters come back as the closed form
+   norm_params_C04 (one per add_argument call, in order), which is the same interface as the input *)
+Theorem C04_ast_partial_lemma : forall pt i edd fc fr tc tr ds di ft' fnm,
+    guard_C04_ast i = true ->
+    exists s i',
+      emit_argparse pt i edd (Some (fc :: fr)) (Some (tc :: tr)) false false (Ok ds) = Ok (s, i)
+      /\ parse_argparse_ast (Ok di) s ft' fnm = Ok i'
+      /\ ir_params i' = norm_params_C04 false (ir_params i)
+      /\ ir_doc i' = ir_doc i
+      /\ ir_returns i' = Missing
+      /\ same_interface_argparse (argparse_type_norm i) i' = true.
+Proof.
+  intros pt i edd fc fr tc tr ds di ft' fnm Hg.
+  destruct (guard_C04_ast_inv i Hg) as [Hnd [Hpok [Hret [Hbody [[d [Hdoc Hsv]] Hexp]]]]].
+  destruct (argparse_loop_codec pt edd di
+              (SExpr (EConst (VStr (set_value_str (indent tab ds ++ tab)))) :: description_assign (VStr d)
+                     :: [] ++ [] ++ [SReturn (Some argparser)])
+              (ir_params i) [] (Has (set_value_str d)) Missing false Hpok Hnd) as [calls [Hcalls _]].
+  (* the emitter *)
+  assert (Hemit : emit_argparse pt i edd (Some (fc :: fr)) (Some (tc :: tr)) false false (Ok ds)
+                  = Ok (SFunc (fc :: fr) (mkArguments [set_arg (L "argument_parser") None] [] [] [] None None)
+                              (SExpr (EConst (VStr (set_value_str (indent tab ds ++ tab))))
+                                     :: description_assign (VStr d)
+                                     :: map call_stmt calls ++ [] ++ [SReturn (Some argparser)]) [] None, i)).
+  { unfold emit_argparse. cbn [py_or bind].
+    assert (Hib : get_internal_body (Some (fc :: fr)) (Some (tc :: tr)) i = Ok []).
+    { unfold get_internal_body. unfold no_carried_body_C04 in Hbody. destruct (ir_internal i) as [it|]; [|reflexivity].
+      destruct (in_body it); [reflexivity|discriminate Hbody]. }
+    rewrite Hib. cbn [bind]. rewrite Hdoc. cbn [fill_if bind]. rewrite Hcalls. cbn [bind argparse_body_skip].
+    change (last_is_return []) with false. cbv iota. rewrite (argparse_return_plain pt i Hret). reflexivity. }
+  (* the parser *)
+  destruct (argparse_loop_codec pt edd di
+              (SExpr (EConst (VStr (set_value_str (indent tab ds ++ tab)))) :: description_assign (VStr d)
+                     :: map call_stmt calls ++ [] ++ [SReturn (Some argparser)])
+              (ir_params i) [] (Has (set_value_str d)) Missing false Hpok Hnd) as [calls' [Hcalls' Hloop]].
+  rewrite Hcalls in Hcalls'. inversion Hcalls' as [Hcc]. rewrite <- Hcc in Hloop.
+  eexists. eexists. split; [exact Hemit|].
+  rewrite parse_argparse_on_emitted. cbn [argparse_loop].
+  assert (Hdesc : forall fb st, argparse_step di fb st (description_assign (VStr d))
+                                = Ok (mkAP (ap_params st) (Has (set_value_str d)) (ap_returns st) (ap_require_default st))).
+  { intros fb st. unfold description_assign, argparse_step, set_value. cbn [argparse_stmt_declined].
+    change (str_eqb (L "description") (L "description") && str_eqb (L "argument_parser") (L "argument_parser")) with true.
+    reflexivity. }
+  rewrite Hdesc. cbn [bind ap_params ap_returns ap_require_default].
+  rewrite Hloop. cbn [List.app argparse_loop argparse_step argparse_stmt_declined bind].
+  split; [reflexivity|]. cbn [ir_params ir_doc ir_returns].
+  split; [reflexivity|]. split; [rewrite (sv_stable_str d Hsv), Hdoc; reflexivity|]. split; [reflexivity|].
+  unfold same_interface_argparse. cbn [ir_params ir_doc ir_returns].
+  apply andb_true_iff. split; [apply andb_true_iff; split|].
+  - unfold same_description, argparse_type_norm. cbn [ir_doc]. rewrite Hdoc, (sv_stable_str d Hsv). apply str_eqb_refl.
+  - unfold argparse_type_norm. cbn [ir_params]. apply same_params_norm_C04; assumption.
+  - assert (Hr : return_with_default (argparse_type_norm i) = None) by exact Hret. rewrite Hr. reflexivity.
+Qed.
+
+(* ================================================================== *)
+(* Part 5: refutation, witnesses, non-vacuity                            *)
+(* ================================================================== *)
+
+Definition w4 (n : str) (g : gparam) : ir := mkIR FNone (Has (L "static")) (Has (L "Doc.")) [(n, g)] FNone None.
+Definition PG4 (doc t : str) (d : option dval) : gparam := mkG (Has doc) (Has t) d.
+
+Definition w4_untyped := w4 (L "x") (mkG (Has (L "the x")) Missing (Some (DV (VInt 5)))).
+Definition w4_none := w4 (L "x") (PG4 (L "the x") (L "Optional[int]") (Some (DV VNone))).
+Definition w4_code := w4 (L "x") (PG4 (L "the x") (L "int") (Some (DV (VStr (L "```5```"))))).
+Definition w4_quoted := w4 (L "x") (PG4 (L "the x") (L "str") (Some (DV (VStr (L "'a'"))))).
+Definition w4_mismatch := w4 (L "x") (PG4 (L "the x") (L "int") (Some (DV (VFloat (L "2.5"))))).
+Definition w4_bool := w4 (L "x") (PG4 (L "the x") (L "bool") None).
+Definition w4_list := w4 (L "x") (PG4 (L "the x") (L "List[int]") None).
+Definition w4_literal := w4 (L "x") (PG4 (L "the x") (L "Literal['a', 'b']") None).
+Definition w4_single := w4 (L "x") (PG4 (L "the x") (L "Literal['a']") (Some (DV (VStr (L "a"))))).
+Definition w4_announces := w4 (L "x") (PG4 (L "the x. Defaults to 5") (L "int") None).
+Definition w4_ret :=
+  mkIR FNone (Has (L "static")) (Has (L "Doc.")) [(L "x", PG4 (L "the x") (L "int") None)]
+       (Has (mkG (Has (L "the result")) (Has (L "int")) (Some (DV (VStr (L "```5```")))))) None.
+
+Definition o4 := mkO04 false false false.
+Definition fails4 (w : ir) : bool := negb (C04_ast_holds_b [] w false false false).
+
+(* the statement at full strength is false of the faithful model: bool without default comes back Optional[bool] *)
+Theorem C04_refuted_lemma : ~ C04_ast_statement.
+Proof.
+  intros H.
+  specialize (H [] w4_bool false (Some (L "set_cli_args")) (Some (L "static")) false false (L "Doc.") empty_doc_ir None None eq_refl).
+  destruct H as [s [i0 [i' [He [Hp Hs]]]]].
+  vm_compute in He. injection He as Hs0 _. subst s.
+  vm_compute in Hp. injection Hp as Hp. subst i'. vm_compute in Hs. discriminate Hs.
+Qed.
+
+(* one witness per finding class of finding_class_C04 that is visible at the AST level with wrapping off: the
+   classifier names the class, the IR is in C04_domain, outside guard_C04_ast, and the composition fails on it *)
+Definition c04_witnesses : list (c04_class * ir) :=
+  [(K4_untyped, w4_untyped); (K4_none_default, w4_none); (K4_code_default, w4_code);
+   (K4_str_default_quoted, w4_quoted); (K4_default_type_mismatch, w4_mismatch);
+   (K4_bool_without_default, w4_bool); (K4_list_without_default, w4_list);
+   (K4_literal_without_default, w4_literal); (K4_literal_single_choice, w4_single);
+   (K4_prose_announces, w4_announces)].
+
+Definition c04_witness_ok (kw : c04_class * ir) : bool :=
+  match finding_class_C04 o4 (snd kw) with
+  | Some k => str_eqb (c04_class_name k) (c04_class_name (fst kw))
+  | None => false
+  end && C04_domain (snd kw) && negb (guard_C04_ast (snd kw)) && fails4 (snd kw).
+
+Theorem C04_witnesses_lemma : forallb c04_witness_ok c04_witnesses = true.
+Proof. vm_compute. reflexivity. Qed.
+
+(* the return entry with a default: with the docstring IR of the emitted docstring, the default comes back as the
+   repr of the code-quoted string *)
+Definition di_ret : ir :=
+  mkIR FNone (Has (L "static")) (Has (L "Set CLI arguments"))
+       [(L "argument_parser", mkG (Has (L "argument parser")) (Has (L "ArgumentParser")) None)]
+       (Has (mkG (Has (L "argument_parser, the result")) (Has (L "Tuple[ArgumentParser, int]")) None)) None.
+Definition ds_ret : str :=
+  L "Set CLI arguments" ++ [nl; nl] ++ L ":param argument_parser: argument parser" ++ [nl]
+    ++ L ":type argument_parser: ```ArgumentParser```" ++ [nl; nl] ++ L ":returns: argument_parser, the result" ++ [nl]
+    ++ L ":rtype: ```Tuple[ArgumentParser, int]```" ++ [nl].
+
+Theorem C04_return_requoted_witness :
+  option_map c04_class_name (finding_class_C04 o4 w4_ret) = Some (L "return-default-requoted")
+  /\ C04_domain w4_ret = true
+  /\ match emit_argparse [] w4_ret false (Some (L "set_cli_args")) (Some (L "static")) false false (Ok ds_ret) with
+     | Ok (s, _) =>
+       match parse_argparse_ast (Ok di_ret) s None None with
+       | Ok i' => option_map g_default (fget (ir_returns i')) = Some (Some (DV (VStr (L "'```5```'"))))
+                  /\ same_interface_argparse (argparse_type_norm w4_ret) i' = false
+       | Err _ => False
+       end
+     | Err _ => False
+     end.
+Proof. vm_compute. repeat split; reflexivity. Qed.
+
+(* non-vacuity: every shape the theorem covers, with the require_default flag changing along the way *)
+Definition w4_ok : ir :=
+  mkIR (Has (L "f")) (Has (L "static")) (Has (L "Set the options."))
+    [(L "a", PG4 (L "first.") (L "Optional[int]") None);
+     (L "b", PG4 (L "second") (L "int") None);
+     (L "c", PG4 (L "third") (L "Optional[float]") None);
+     (L "d", PG4 (L "4") (L "str") (Some (DV (VStr (L "mnist")))));
+     (L "e", PG4 (L "5") (L "List[int]") (Some (DV (VInt (-5)))));
+     (L "f", PG4 (L "6") (L "bool") (Some (DV (VBool false))));
+     (L "g", PG4 (L "7") (L "Optional[str]") (Some (DV (VStr []))));
+     (L "h", mkG Missing (Has (L "float")) (Some (DV (VFloat (L "-0.0")))));
+     (L "k", PG4 (L "9") (L "List[str]") (Some (DV (VStr (L "x")))));
+     (L "l", mkG FNone (Has (L "Optional[bool]")) None);
+     (L "m", PG4 (L "11") (L "Literal['sgd', 'adam']") (Some (DV (VStr (L "adam")))))]
+    (Has (mkG (Has (L "the result")) (Has (L "int")) None)) None.
+
+Theorem C04_nonvacuous_lemma :
+  guard_C04_ast w4_ok = true
+  /\ guard_C04 (mkO04 false false false) w4_ok = true /\ guard_C04 (mkO04 true false false) w4_ok = true
+  /\ C04_ast_holds_b [] w4_ok false false false = true /\ C04_ast_holds_b [] w4_ok true false false = true
+  /\ map (fun kv => g_default (snd kv)) (norm_params_C04 false (ir_params w4_ok))
+     = [None; Some (DV (VInt 0)); Some (DV (VStr NoneStr)); Some (DV (VStr (L "mnist"))); Some (DV (VInt (-5)));
+        Some (DV (VBool false)); Some (DV (VStr [])); Some (DV (VFloat (L "-0.0"))); Some (DV (VStr (L "x")));
+        Some (DV (VStr NoneStr)); Some (DV (VStr (L "adam")))].
+Proof. vm_compute. repeat split; reflexivity. Qed.
